@@ -1,0 +1,168 @@
+//! Verification hooks. Only compiled with `--cfg wild_verif`. Everything in here is inert unless one
+//! of the `WILD_VERIF_*` environment variables is set:
+//!
+//! * `WILD_VERIF_TRACE=<path>`: append one JSON object per line for each traced protocol step. Lines
+//!   are written with a single `write` to an `O_APPEND` file while holding a global mutex, so the
+//!   order of lines in the file is a linearisation consistent with the locks that the call sites
+//!   hold when they emit.
+//! * `WILD_VERIF_YIELD_SEED=<n>`: perturb thread scheduling at the named yield points (which sit
+//!   between, never inside, critical sections).
+//! * `WILD_VERIF_FAULT=<point>:<kind>`: inject a fault of the given kind (`error`, `panic`, `abort`,
+//!   `kill`, `segv`, `oom`) the first time the named point is reached.
+//! * `WILD_VERIF_PAUSE=<point>:<dir>`: when the named point is reached, create `<dir>/reached` and
+//!   block until `<dir>/go` exists.
+
+use std::io::Write as _;
+use std::sync::Mutex;
+use std::sync::OnceLock;
+use std::sync::atomic::AtomicBool;
+use std::sync::atomic::AtomicU64;
+use std::sync::atomic::Ordering;
+
+struct TraceSink {
+    file: Mutex<(std::fs::File, u64)>,
+}
+
+fn sink() -> Option<&'static TraceSink> {
+    static SINK: OnceLock<Option<TraceSink>> = OnceLock::new();
+    SINK.get_or_init(|| {
+        let path = std::env::var_os("WILD_VERIF_TRACE")?;
+        let file = std::fs::OpenOptions::new()
+            .create(true)
+            .append(true)
+            .open(path)
+            .ok()?;
+        Some(TraceSink {
+            file: Mutex::new((file, 0)),
+        })
+    })
+    .as_ref()
+}
+
+#[inline]
+pub(crate) fn tracing() -> bool {
+    sink().is_some()
+}
+
+/// Emits one event. `fields` must be the inside of a JSON object, e.g. `"g":1,"n":2`.
+pub(crate) fn ev(name: &str, fields: std::fmt::Arguments) {
+    let Some(sink) = sink() else {
+        return;
+    };
+    let mut guard = sink.file.lock().unwrap_or_else(|e| e.into_inner());
+    guard.1 += 1;
+    let seq = guard.1;
+    let pid = std::process::id();
+    let fields = fields.to_string();
+    let sep = if fields.is_empty() { "" } else { "," };
+    let line = format!("{{\"ev\":\"{name}\",\"seq\":{seq},\"pid\":{pid}{sep}{fields}}}\n");
+    let _ = guard.0.write_all(line.as_bytes());
+}
+
+#[macro_export]
+macro_rules! verif_ev {
+    ($name:expr) => {
+        if $crate::verif::tracing() {
+            $crate::verif::ev($name, format_args!(""));
+        }
+    };
+    ($name:expr, $($arg:tt)*) => {
+        if $crate::verif::tracing() {
+            $crate::verif::ev($name, format_args!($($arg)*));
+        }
+    };
+}
+
+fn yield_seed() -> Option<u64> {
+    static SEED: OnceLock<Option<u64>> = OnceLock::new();
+    *SEED.get_or_init(|| std::env::var("WILD_VERIF_YIELD_SEED").ok()?.parse().ok())
+}
+
+/// Possibly perturbs scheduling. Must only be called while holding no locks.
+pub(crate) fn yield_point(site: u64) {
+    let Some(seed) = yield_seed() else {
+        return;
+    };
+    static COUNTER: AtomicU64 = AtomicU64::new(0);
+    let n = COUNTER.fetch_add(1, Ordering::Relaxed);
+    // splitmix64
+    let mut z = seed
+        .wrapping_add(site.wrapping_mul(0x9E37_79B9_7F4A_7C15))
+        .wrapping_add(n.wrapping_mul(0xBF58_476D_1CE4_E5B9));
+    z = (z ^ (z >> 30)).wrapping_mul(0xBF58_476D_1CE4_E5B9);
+    z = (z ^ (z >> 27)).wrapping_mul(0x94D0_49BB_1331_11EB);
+    z ^= z >> 31;
+    match z % 8 {
+        0 | 1 => std::thread::yield_now(),
+        2 => std::thread::sleep(std::time::Duration::from_micros(z >> 32 & 0xff)),
+        3 => std::thread::sleep(std::time::Duration::from_micros(z >> 32 & 0x7ff)),
+        _ => {}
+    }
+}
+
+fn parse_point_env(var: &str) -> Option<(String, String)> {
+    let v = std::env::var(var).ok()?;
+    let (a, b) = v.split_once(':')?;
+    Some((a.to_owned(), b.to_owned()))
+}
+
+/// A place where a fault can be injected. Returns an error if the injected fault is `error`.
+pub(crate) fn fault_point(name: &str) -> crate::error::Result {
+    static FAULT: OnceLock<Option<(String, String)>> = OnceLock::new();
+    static FIRED: AtomicBool = AtomicBool::new(false);
+    pause_point(name);
+    let Some((point, kind)) = FAULT
+        .get_or_init(|| parse_point_env("WILD_VERIF_FAULT"))
+        .as_ref()
+    else {
+        return Ok(());
+    };
+    if point != name || FIRED.swap(true, Ordering::SeqCst) {
+        return Ok(());
+    }
+    crate::verif_ev!("Fault", "\"point\":\"{name}\",\"kind\":\"{kind}\"");
+    match kind.as_str() {
+        "error" => Err(crate::error!("verif: injected error at {name}")),
+        "panic" => panic!("verif: injected panic at {name}"),
+        "abort" => std::process::abort(),
+        "kill" => {
+            unsafe { libc::raise(libc::SIGKILL) };
+            unreachable!();
+        }
+        "segv" => {
+            unsafe {
+                libc::signal(libc::SIGSEGV, libc::SIG_DFL);
+                libc::raise(libc::SIGSEGV);
+            }
+            unreachable!();
+        }
+        "oom" => {
+            // The real thing: ask the global allocator for something it cannot provide.
+            let layout = std::alloc::Layout::from_size_align(usize::MAX / 2, 8).unwrap();
+            std::alloc::handle_alloc_error(layout);
+        }
+        _ => Ok(()),
+    }
+}
+
+/// A place where the process can be made to wait for the test driver.
+pub(crate) fn pause_point(name: &str) {
+    static PAUSE: OnceLock<Option<(String, String)>> = OnceLock::new();
+    static FIRED: AtomicBool = AtomicBool::new(false);
+    let Some((point, dir)) = PAUSE
+        .get_or_init(|| parse_point_env("WILD_VERIF_PAUSE"))
+        .as_ref()
+    else {
+        return;
+    };
+    if point != name || FIRED.swap(true, Ordering::SeqCst) {
+        return;
+    }
+    let dir = std::path::Path::new(dir);
+    let _ = std::fs::write(dir.join("reached"), name);
+    let go = dir.join("go");
+    let start = std::time::Instant::now();
+    while !go.exists() && start.elapsed() < std::time::Duration::from_secs(60) {
+        std::thread::sleep(std::time::Duration::from_millis(2));
+    }
+}
